@@ -93,6 +93,19 @@ Lemma do_sadd_hdr s ts k ms m m' : meta_get s TS k = Some m -> is_expired Compac
 Proof.
   intros K E. unfold do_sadd. destruct (live_header s ts TS k m K E) as [_ L]. rewrite L. cbn [fst]. apply meta_incr_size_hdr.
 Qed.
+Lemma meta_get_zdel_item s k v st x t' k' : meta_get (zdel_item s k v st x) t' k' = meta_get st t' k'.
+Proof. unfold zdel_item. destruct (el_get s TZ k v (SB x)); reflexivity. Qed.
+Lemma meta_get_fold_zdel_item {A} s k v (f : A -> bytes) l : forall st t' k',
+  meta_get (fold_left (fun st0 a => zdel_item s k v st0 (f a)) l st) t' k' = meta_get st t' k'.
+Proof. induction l as [|x l IH]; intros st t' k'; simpl; auto. now rewrite IH, meta_get_zdel_item. Qed.
+Lemma zrem_entries_hdr s k h ud ents m' : meta_get (fst (zrem_entries s k h ud ents)) TZ k = Some m' -> m_hdr m' = h.
+Proof. unfold zrem_entries. cbn [fst]. apply meta_incr_size_hdr. Qed.
+Lemma do_zrem_hdr s ts k ms m m' : meta_get s TZ k = Some m -> is_expired Compact (m_hdr m) ts = false ->
+  meta_get (fst (do_zrem Compact s ts k ms)) TZ k = Some m' -> m_hdr m' = m_hdr m.
+Proof.
+  intros K E. unfold do_zrem. destruct ms as [|x ms]; [cbn [fst]; now apply same_meta|].
+  destruct (live_header s ts TZ k m K E) as [L _]. rewrite L. cbn [fst]. apply meta_incr_size_hdr.
+Qed.
 Lemma do_zadd_hdr s ts k sml m m' : meta_get s TZ k = Some m -> is_expired Compact (m_hdr m) ts = false ->
   meta_get (fst (do_zadd Compact s ts k sml)) TZ k = Some m' -> m_hdr m' = m_hdr m.
 Proof.
@@ -103,7 +116,7 @@ Lemma do_zincrby_hdr s ts k d mem m m' : meta_get s TZ k = Some m -> is_expired 
   meta_get (fst (do_zincrby Compact s ts k d mem)) TZ k = Some m' -> m_hdr m' = m_hdr m.
 Proof.
   intros K E. unfold do_zincrby. destruct (live_header s ts TZ k m K E) as [_ L]. rewrite L.
-  destruct (el_get s TZ k (h_ver (m_hdr m)) (SB mem)); cbn [fst]; rewrite meta_get_el_put.
+  destruct (el_get s TZ k (h_ver (m_hdr m)) (SB mem)); cbn [fst]; rewrite !meta_get_el_put.
   - now apply same_meta.
   - apply meta_incr_size_hdr.
 Qed.
@@ -111,7 +124,7 @@ Lemma do_zrrbs_hdr s ts k lo hi m m' : meta_get s TZ k = Some m -> is_expired Co
   meta_get (fst (do_zremrangebyscore Compact s ts k lo hi)) TZ k = Some m' -> m_hdr m' = m_hdr m.
 Proof.
   intros K E. unfold do_zremrangebyscore. destruct (live_header s ts TZ k m K E) as [L _]. rewrite L.
-  destruct (size_of (Some (m_a m, m_b m)) =? 0); cbn [fst]; [now apply same_meta | apply meta_incr_size_hdr].
+  destruct (size_of (Some (m_a m, m_b m)) =? 0); [cbn [fst]; now apply same_meta | apply zrem_entries_hdr].
 Qed.
 Lemma do_spop_hdr s ts k n m m' : meta_get s TS k = Some m -> is_expired Compact (m_hdr m) ts = false ->
   meta_get (fst (do_spop Compact s ts k n)) TS k = Some m' -> m_hdr m' = m_hdr m.
@@ -191,7 +204,7 @@ Proof.
   match goal with |- context [if ?c then _ else _] => destruct c end.
   { cbn [not_exist_or_expired orb fst]. rewrite meta_get_del, (proj2 (mkey_eqb_eq (TZ, k) (TZ, k)) eq_refl). discriminate. }
   match goal with |- context [if ?c then _ else _] => destruct c end; [cbn [fst]; now apply same_meta|].
-  match goal with |- context [if ?c then _ else _] => destruct c end; cbn [fst]; apply meta_incr_size_hdr.
+  match goal with |- context [if ?c then _ else _] => destruct c end; [cbn [fst]; apply meta_incr_size_hdr | apply zrem_entries_hdr].
 Qed.
 
 (* (a) a modifying command on a live key keeps its header: the expiry and the generation *)
@@ -231,7 +244,7 @@ Proof.
   - eapply do_spop_hdr; eauto.
   - eapply do_zadd_hdr; eauto.
   - eapply do_zincrby_hdr; eauto.
-  - eapply coll_rem_hdr; eauto.
+  - eapply do_zrem_hdr; eauto.
   - eapply do_zrrbs_hdr; eauto.
   - eapply do_lpush_hdr; eauto.
   - eapply do_lpop_hdr; eauto.
